@@ -349,3 +349,21 @@ func (w *World) FileOf(rel string) (*packages.Package, *ast.File) {
 	}
 	return nil, nil
 }
+
+// ConstAtom returns "const:<value>" for a named constant of a repo package (so rule tables name constants, never
+// their numeric values).
+func (w *World) ConstAtom(pkgRel, name string) string {
+	p := w.PkgBy[pkgRel]
+	if p == nil {
+		return "const:<unresolved " + pkgRel + "." + name + ">"
+	}
+	c, ok := p.Types.Scope().Lookup(name).(*types.Const)
+	if !ok {
+		return "const:<unresolved " + pkgRel + "." + name + ">"
+	}
+	v := c.Val().ExactString()
+	if len(v) >= 2 && v[0] == '"' {
+		v = v[1 : len(v)-1]
+	}
+	return "const:" + v
+}
